@@ -189,6 +189,22 @@ func c20Forms() []formCase {
 		fs = append(fs, formCase{Name: "foreign-decl/" + k + "/direct", Slot: "foreign-decl", Imports: imp, Body: inj("A", "A{}", "NewA, "+foreign[k])})
 		fs = append(fs, formCase{Name: "foreign-decl/" + k + "/in-unused-set-var", Slot: "foreign-decl", Imports: imp, Body: "var ForeignSet = wire.NewSet(" + foreign[k] + ")\n\n" + inj("A", "A{}", "NewA")})
 	}
+	// ... the same declarations named through a DOT import (a bare identifier) and a renamed one
+	foreignDot := map[string]string{
+		"std-func-no-result":      "Exit",
+		"std-func-dup-params":     "Replace",
+		"std-func-second-not-err": "Cut",
+		"std-var-pointer":         "Stdout",
+		"std-func-four-results":   "ParseFloat",
+	}
+	for _, k := range sortedStrKeys(foreignDot) {
+		imp := "import (\n\t. \"os\"\n\t. \"strconv\"\n\t. \"strings\"\n\n\t\"github.com/google/wire\"\n)\n\nvar _ = Exit\nvar _ = Itoa\nvar _ = Cut\n"
+		fs = append(fs, formCase{Name: "foreign-decl-dot-import/" + k + "/direct", Slot: "foreign-decl", Imports: imp, Body: inj("A", "A{}", "NewA, "+foreignDot[k])})
+		fs = append(fs, formCase{Name: "foreign-decl-dot-import/" + k + "/in-set-var", Slot: "foreign-decl", Imports: imp, Body: "var ForeignSet = wire.NewSet(" + foreignDot[k] + ")\n\n" + inj("A", "A{}", "NewA, ForeignSet")})
+		impR := "import (\n\tsys \"os\"\n\tconv \"strconv\"\n\tstr \"strings\"\n\n\t\"github.com/google/wire\"\n)\n\nvar _ = sys.Exit\nvar _ = conv.Itoa\nvar _ = str.Cut\n"
+		q := map[string]string{"Exit": "sys.Exit", "Replace": "str.Replace", "Cut": "str.Cut", "Stdout": "sys.Stdout", "ParseFloat": "conv.ParseFloat"}[foreignDot[k]]
+		fs = append(fs, formCase{Name: "foreign-decl-renamed-import/" + k + "/direct", Slot: "foreign-decl", Imports: impR, Body: inj("A", "A{}", "NewA, "+q)})
+	}
 	// ---- struct tags: any string is a legal tag
 	tags := map[string]string{
 		"unterminated-value": "\"wire:\\\"-\"", "no-quotes": "`wire:-`", "key-only": "`wire`", "empty-value": "`wire:\"\"`", "open-quote-only": "`wire:\"`",
